@@ -4,6 +4,17 @@ pub(crate) struct ReedlineHistory<SE: brush_core::ShellExtensions> {
     pub shell: refs::ShellRef<SE>,
 }
 
+/// Exposes the history adapter an interactive session hands to reedline to an external
+/// simulator (feature `verif-hooks`).
+#[cfg(feature = "verif-hooks")]
+pub fn verif_reedline_history<SE: brush_core::ShellExtensions>(
+    shell: &refs::ShellRef<SE>,
+) -> impl reedline::History {
+    ReedlineHistory {
+        shell: shell.clone(),
+    }
+}
+
 impl<SE: brush_core::ShellExtensions> ReedlineHistory<SE> {
     fn lock_shell(&self) -> tokio::sync::MutexGuard<'_, brush_core::Shell<SE>> {
         tokio::task::block_in_place(|| {
